@@ -15,6 +15,9 @@ namespace SoyVerif.Lemmas.LexPrint
 open SoyVerif SoyVerif.Model SoyVerif.Model.Lex SoyVerif.Model.PrintTokens
 open SoyVerif.Lemmas.ParserAdj SoyVerif.Lemmas.ParserToks
 
+/-- `|` -/
+def tPipe : Tk := ⟨.tPipe, [124]⟩
+
 /-- the token `t`, followed by the bytes `rest`, is one the lexer reads back as `t` -/
 inductive TokOk : Tk → Bytes → Prop
   | lp (rest) : TokOk tLP rest
@@ -23,6 +26,8 @@ inductive TokOk : Tk → Bytes → Prop
   | rb (rest) : TokOk tRB rest
   | comma (rest) : TokOk tComma rest
   | colon (rest) : TokOk tColon rest
+  /-- `|` in front of a print directive -/
+  | pipe (rest) : TokOk tPipe rest
   | qkey (rest) : TokOk tQKey rest
   | ternif (rest) : TokOk tTernIf (32 :: rest)
   | neg (rest) (ha : AsciiHd rest) (hd : hdRune rest < 48 ∨ 57 < hdRune rest) : TokOk tNeg rest
@@ -50,7 +55,7 @@ inductive TokOk : Tk → Bytes → Prop
 
 /-- every token spelling is non-empty -/
 theorem tokOk_ne {t : Tk} {rest : Bytes} (h : TokOk t rest) : t.val ≠ [] := by
-  cases h <;> try (simp [tLP, tRP, tLB, tRB, tComma, tColon, tQKey, tTernIf, tNeg])
+  cases h <;> try (simp [tLP, tRP, tLB, tRB, tComma, tColon, tQKey, tTernIf, tNeg, tPipe])
   case op o rest ho => cases o <;> simp [tOp, BinOp.sym]
   case num val typ hs hr =>
     obtain ⟨sg, ds, frac, ex, rfl, _, hds, _⟩ := hs
@@ -92,6 +97,7 @@ theorem tok_step {inp : Array UInt8} {p : Nat} {t : Tk} {rest : Bytes} {le : Ite
   | rb => exact ⟨1, by omega, by omega, run_of_step1 (step_bracket (s := rest) h .tRightBracket (by simp) le its)⟩
   | comma => exact ⟨1, by omega, by omega, run_of_step1 (step_bracket (s := rest) h .tComma (by simp) le its)⟩
   | colon => exact ⟨1, by omega, by omega, run_of_step1 (step_single (s := rest) h .tColon (by simp) T.sym1.2.2.2.2.2.1 le its)⟩
+  | pipe => exact ⟨1, by omega, by omega, run_of_step1 (step_bracket (s := rest) h .tPipe (by simp) le its)⟩
   | qkey => exact ⟨1, by omega, by omega, run_of_step1 (step_qkey (s := rest) h le its)⟩
   | ternif r => exact ⟨1, by omega, by omega, run_of_step1 (step_ternif (s := r) h le its)⟩
   | neg _ ha hd =>
